@@ -26,7 +26,8 @@ Objs    == {1, 2}
 Sigs    == {1, 2}
 Mnc     == {0, 2, 3}     \* min_n_cycles: 0 = key absent
 Funcs   == {"compute_features", "compute_shape_features", "compute_burst_features", "recompute_edges", "recompute_edges_no_burst", "limit_df", "epoch_df",
-            "drop_samples_df", "plot", "compute_features_2d", "compute_features_2d_epochs", "compute_features_3d"}
+            "drop_samples_df", "plot", "compute_features_2d", "compute_features_2d_epochs", "compute_features_3d",
+            "limit_df_keeping_all_cycles", "compute_burst_features_inverted_flanks"}
 
 FuncsObjectHeavy == {"compute_features"}      \* substituted for Funcs (cfg: Funcs <- FuncsObjectHeavy) when simulating object-centred sessions
 VARIABLES heap, intent, obj, hist
